@@ -1,11 +1,541 @@
 package main
 
+// Counterexample replay on the real code (DESIGN 4.2).
+//
+// For a failed obligation whose query is satisfiable the solver's model
+// fixes the function's arguments and pre-state.  The replayer materialises
+// them as Go values, generates an in-package test that runs the REAL
+// function on them (injected with `go test -overlay`, nothing is written to
+// the repository), and compares what the real code does with what the model
+// says it does:
+//   safe:* obligations      -> the real call must panic;
+//   ensures / known         -> results and reachable post-state of the real
+//                              run must equal the model's, i.e. the execution
+//                              in which the solver evaluates the postcondition
+//                              to false is a real execution.
+// Anything the materialiser cannot build (maps, interfaces, channels,
+// closures, foreign types) makes the replay "not attempted".
+
 import (
+	"encoding/json"
 	"fmt"
+	"go/types"
 	"os"
+	"os/exec"
 	"path/filepath"
+	"sort"
+	"strconv"
 	"strings"
+
+	"golang.org/x/tools/go/ssa"
 )
+
+type ReplayInfo struct {
+	Fn      *ssa.Function
+	Params  []Val
+	Results []Val
+	Pre     *State
+	Post    *State
+}
+
+type noReplay struct{ why string }
+
+func giveUp(f string, a ...any) { panic(noReplay{fmt.Sprintf(f, a...)}) }
+
+// modelSession evaluates terms in the model of one query by re-running the
+// (deterministic) solver with a get-value suffix.
+type modelSession struct {
+	query string
+	cache map[string]string
+	dir   string
+	n     int
+}
+
+func (m *modelSession) eval(terms []string) []string {
+	var need []string
+	seen := map[string]bool{}
+	for _, t := range terms {
+		if _, ok := m.cache[t]; !ok && !seen[t] {
+			need = append(need, t)
+			seen[t] = true
+		}
+	}
+	for len(need) > 0 {
+		n := len(need)
+		if n > 2000 {
+			n = 2000
+		}
+		batch := need[:n]
+		need = need[n:]
+		q := m.query + "(get-value (" + strings.Join(batch, "\n") + "))\n"
+		m.n++
+		file := filepath.Join(m.dir, fmt.Sprintf("m%d.smt2", m.n))
+		os.WriteFile(file, []byte(q), 0o644)
+		out, _ := exec.Command("z3-new", "-T:60", file).CombinedOutput()
+		text := string(out)
+		if !strings.HasPrefix(text, "sat") {
+			giveUp("model not reproducible: %s", truncate(text, 100))
+		}
+		vals := parseGetValueRaw(text)
+		if len(vals) != len(batch) {
+			giveUp("get-value returned %d values for %d terms", len(vals), len(batch))
+		}
+		for i, t := range batch {
+			m.cache[t] = vals[i]
+		}
+	}
+	out := make([]string, len(terms))
+	for i, t := range terms {
+		out[i] = m.cache[t]
+	}
+	return out
+}
+
+// parseGetValueRaw returns the value strings of a get-value answer in order.
+func parseGetValueRaw(text string) []string {
+	i := strings.Index(text, "((")
+	if i < 0 {
+		return nil
+	}
+	s := text[i+1:]
+	var out []string
+	for {
+		s = strings.TrimLeft(s, " \n\t")
+		if len(s) == 0 || s[0] != '(' {
+			break
+		}
+		j := matchParen(s, 0)
+		if j < 0 {
+			break
+		}
+		pair := s[1:j]
+		var val string
+		if pair[0] == '(' {
+			k := matchParen(pair, 0)
+			val = strings.TrimSpace(pair[k+1:])
+		} else {
+			k := strings.IndexAny(pair, " \n")
+			val = strings.TrimSpace(pair[k+1:])
+		}
+		out = append(out, val)
+		s = s[j+1:]
+	}
+	return out
+}
+
+func (m *modelSession) u64(term string) uint64 {
+	v := m.eval([]string{term})[0]
+	return parseBV(v)
+}
+
+func parseBV(v string) uint64 {
+	switch {
+	case strings.HasPrefix(v, "#x"):
+		n, _ := strconv.ParseUint(v[2:], 16, 64)
+		return n
+	case strings.HasPrefix(v, "#b"):
+		n, _ := strconv.ParseUint(v[2:], 2, 64)
+		return n
+	case strings.HasPrefix(v, "(_ bv"):
+		var n uint64
+		fmt.Sscanf(v, "(_ bv%d", &n)
+		return n
+	}
+	giveUp("not a bit-vector value: %s", v)
+	return 0
+}
+
+func (m *modelSession) intv(term string) int64 {
+	v := m.eval([]string{term})[0]
+	v = strings.TrimSpace(v)
+	if strings.HasPrefix(v, "(-") {
+		n, _ := strconv.ParseInt(strings.TrimSpace(v[2:len(v)-1]), 10, 64)
+		return -n
+	}
+	n, err := strconv.ParseInt(v, 10, 64)
+	if err != nil {
+		giveUp("not an integer value: %s", v)
+	}
+	return n
+}
+
+func (m *modelSession) boolv(term string) bool {
+	return m.eval([]string{term})[0] == "true"
+}
+
+// materialiser builds Go source for values read out of a model.
+type materialiser struct {
+	enc   *Enc
+	ms    *modelSession
+	pkg   *types.Package
+	stmts []string
+	nvar  int
+	// objects already built in this state: key -> Go variable
+	objs map[string]string
+	// what to compare after the call: Go variable of a pre-state object ->
+	// builder of the expected post value
+	roots []rootObj
+}
+
+type rootObj struct {
+	goVar string
+	t     types.Type // pointee type (pointer roots) or slice type
+	addr  [3]string  // concrete address terms
+	hdr   []string   // slice header (concrete terms) for slice roots
+}
+
+const maxReplayLen = 1 << 13
+
+func (mz *materialiser) newVar() string {
+	mz.nvar++
+	return fmt.Sprintf("v%d", mz.nvar)
+}
+
+func (mz *materialiser) typeStr(t types.Type) string {
+	ok := true
+	s := types.TypeString(t, func(p *types.Package) string {
+		if p == mz.pkg {
+			return ""
+		}
+		switch p.Path() {
+		case "sync", "time":
+			return p.Name()
+		}
+		ok = false
+		return p.Name()
+	})
+	if !ok {
+		giveUp("type %s from a foreign package", t)
+	}
+	return s
+}
+
+func lit(sort string, v string) string {
+	if sort == SBool {
+		return v
+	}
+	return fmt.Sprint(parseBV(v))
+}
+
+// value renders the Go expression of a value of type t whose leaves are the
+// given terms, reading pointees from state st.
+func (mz *materialiser) value(st *State, t types.Type, L []string) string {
+	switch u := t.Underlying().(type) {
+	case *types.Basic:
+		switch {
+		case u.Info()&types.IsBoolean != 0:
+			return fmt.Sprintf("%s(%v)", mz.typeStr(t), mz.ms.boolv(L[0]))
+		case u.Info()&types.IsInteger != 0:
+			n := mz.ms.u64(L[0])
+			if isSigned(t) {
+				w := intWidth(t)
+				sv := int64(n)
+				if w < 64 && n&(1<<(w-1)) != 0 {
+					sv = int64(n) - (1 << w)
+				}
+				return fmt.Sprintf("%s(%d)", mz.typeStr(t), sv)
+			}
+			return fmt.Sprintf("%s(%d)", mz.typeStr(t), n)
+		case u.Info()&types.IsString != 0:
+			n := mz.ms.u64("(slen " + L[0] + ")")
+			if n > maxReplayLen {
+				giveUp("string of length %d", n)
+			}
+			var terms []string
+			for k := uint64(0); k < n; k++ {
+				terms = append(terms, fmt.Sprintf("(sbyte %s %s)", L[0], bv64(int64(k))))
+			}
+			vals := mz.ms.eval(terms)
+			bs := make([]byte, n)
+			for k := range vals {
+				bs[k] = byte(parseBV(vals[k]))
+			}
+			return fmt.Sprintf("%s(%q)", mz.typeStr(t), string(bs))
+		}
+		giveUp("basic type %s", t)
+	case *types.Struct:
+		if n, ok := t.(*types.Named); ok && n.Obj().Pkg() != nil && n.Obj().Pkg().Path() == "sync" {
+			return mz.typeStr(t) + "{}"
+		}
+		var parts []string
+		for _, fi := range mz.enc.l.structFields(t) {
+			if fi.Ghost {
+				continue
+			}
+			n := mz.enc.l.cells(fi.T)
+			if fi.Name == "_" || isSyncType(fi.T) {
+				continue
+			}
+			if fv := mz.value(st, fi.T, L[fi.Off:fi.Off+n]); !isZeroish(fv) {
+				parts = append(parts, fi.Name+": "+fv)
+			}
+		}
+		return mz.typeStr(t) + "{" + strings.Join(parts, ", ") + "}"
+	case *types.Pointer:
+		return mz.pointer(st, t, L)
+	case *types.Slice:
+		return mz.slice(st, t, L)
+	case *types.Array:
+		ec := mz.enc.l.cells(u.Elem())
+		var parts []string
+		for i := int64(0); i < u.Len(); i++ {
+			parts = append(parts, mz.value(st, u.Elem(), L[int(i)*ec:int(i+1)*ec]))
+		}
+		return mz.typeStr(t) + "{" + strings.Join(parts, ", ") + "}"
+	}
+	giveUp("cannot materialise a value of type %s", t)
+	return ""
+}
+
+func (mz *materialiser) concreteAddr(L []string) [3]string {
+	ref := mz.ms.intv(L[0])
+	idx := mz.ms.u64(L[1])
+	sub := mz.ms.u64(L[2])
+	return [3]string{fmt.Sprint(ref), bv64(int64(idx)), bv64(int64(sub))}
+}
+
+// object reads a value of type t stored at a concrete address.
+func (mz *materialiser) object(st *State, t types.Type, a [3]string) string {
+	if arr, ok := t.Underlying().(*types.Array); ok && mz.enc.l.cells(arr.Elem()) == 1 {
+		// bulk read of a scalar array
+		so := mz.enc.l.leafSorts(arr.Elem())[0]
+		inner := sel(sel(st.heaps[so], a[0]), a[1])
+		var terms []string
+		for k := int64(0); k < arr.Len(); k++ {
+			terms = append(terms, sel(inner, bvadd(a[2], bv64(k))))
+		}
+		vals := mz.ms.eval(terms)
+		allZero := true
+		parts := make([]string, len(vals))
+		for k, v := range vals {
+			parts[k] = lit(so, v)
+			if parts[k] != "0" && parts[k] != "false" {
+				allZero = false
+			}
+		}
+		if allZero {
+			return mz.typeStr(t) + "{}"
+		}
+		return mz.typeStr(t) + "{" + strings.Join(parts, ", ") + "}"
+	}
+	if stt, ok := t.Underlying().(*types.Struct); ok {
+		_ = stt
+		if n, ok := t.(*types.Named); ok && n.Obj().Pkg() != nil && n.Obj().Pkg().Path() == "sync" {
+			return mz.typeStr(t) + "{}"
+		}
+		var parts []string
+		for _, fi := range mz.enc.l.structFields(t) {
+			if fi.Ghost || fi.Name == "_" || isSyncType(fi.T) {
+				continue
+			}
+			fa := [3]string{a[0], a[1], bvadd(a[2], bv64(int64(fi.Off)))}
+			if fv := mz.object(st, fi.T, fa); !isZeroish(fv) {
+				parts = append(parts, fi.Name+": "+fv)
+			}
+		}
+		return mz.typeStr(t) + "{" + strings.Join(parts, ", ") + "}"
+	}
+	sorts := mz.enc.l.leafSorts(t)
+	L := make([]string, len(sorts))
+	for k, so := range sorts {
+		L[k] = sel(sel(sel(st.heaps[so], a[0]), a[1]), bvadd(a[2], bv64(int64(k))))
+	}
+	return mz.value(st, t, L)
+}
+
+func (mz *materialiser) pointer(st *State, t types.Type, L []string) string {
+	a := mz.concreteAddr(L)
+	if a[0] == "0" {
+		return "(" + mz.typeStr(t) + ")(nil)"
+	}
+	key := strings.Join(a[:], "/") + ":" + types.TypeString(t, nil)
+	if v, ok := mz.objs[key]; ok {
+		return v
+	}
+	pt := derefType(t)
+	v := mz.newVar()
+	mz.objs[key] = v
+	body := mz.object(st, pt, a)
+	if _, isStruct := pt.Underlying().(*types.Struct); isStruct {
+		mz.stmts = append(mz.stmts, fmt.Sprintf("%s := &%s", v, body))
+	} else {
+		mz.stmts = append(mz.stmts, fmt.Sprintf("%s := new(%s); *%s = %s", v, mz.typeStr(pt), v, body))
+	}
+	mz.roots = append(mz.roots, rootObj{goVar: v, t: pt, addr: a})
+	return v
+}
+
+func (mz *materialiser) slice(st *State, t types.Type, L []string) string {
+	a := mz.concreteAddr(L)
+	ln := mz.ms.u64(L[3])
+	cp := mz.ms.u64(L[4])
+	et := t.Underlying().(*types.Slice).Elem()
+	if a[0] == "0" {
+		return "(" + mz.typeStr(t) + ")(nil)"
+	}
+	if ln > maxReplayLen {
+		giveUp("slice of length %d", ln)
+	}
+	if cp > ln+64 {
+		cp = ln + 64 // the model's capacity is arbitrary; keep allocations small
+	}
+	key := strings.Join(a[:], "/") + fmt.Sprintf(":%d:%d:", ln, cp) + types.TypeString(t, nil)
+	if v, ok := mz.objs[key]; ok {
+		return v
+	}
+	v := mz.newVar()
+	mz.objs[key] = v
+	one := mz.enc.l.oneCell(et)
+	var elems []string
+	if one {
+		so := mz.enc.l.leafSorts(et)[0]
+		if so == SStr || so == SInt {
+			for k := uint64(0); k < ln; k++ {
+				ea := [3]string{a[0], a[1], bvadd(a[2], bv64(int64(k)))}
+				elems = append(elems, mz.object(st, et, ea))
+			}
+		} else {
+			inner := sel(sel(st.heaps[so], a[0]), a[1])
+			var terms []string
+			for k := uint64(0); k < ln; k++ {
+				terms = append(terms, sel(inner, bvadd(a[2], bv64(int64(k)))))
+			}
+			for _, val := range mz.ms.eval(terms) {
+				elems = append(elems, lit(so, val))
+			}
+		}
+	} else {
+		if ln > 256 {
+			giveUp("slice of %d multi-cell elements", ln)
+		}
+		for k := uint64(0); k < ln; k++ {
+			ea := [3]string{a[0], bvadd(a[1], bv64(int64(k))), a[2]}
+			elems = append(elems, mz.object(st, et, ea))
+		}
+	}
+	mz.stmts = append(mz.stmts, fmt.Sprintf("%s := make(%s, %d, %d)", v, mz.typeStr(t), ln, cp))
+	for k, el := range elems {
+		if !isZeroish(el) {
+			mz.stmts = append(mz.stmts, fmt.Sprintf("%s[%d] = %s", v, k, el))
+		}
+	}
+	return v
+}
+
+// replayObligation tries to confirm the counterexample of a failed
+// obligation on the real code.  It returns the Go test source (if one was
+// generated), whether the violation was confirmed, and a log.
+func replayObligation(e *Eng, r ObResult, repo string) (src string, confirmed bool, log string) {
+	it := r.item
+	if it.Replay == nil || it.Replay.Fn == nil {
+		return "", false, "no replay harness for this obligation class"
+	}
+	ri := it.Replay
+	fn := ri.Fn
+	if fn.Pkg == nil {
+		return "", false, "function has no package"
+	}
+	defer func() {
+		if x := recover(); x != nil {
+			if nr, ok := x.(noReplay); ok {
+				log += "replay not attempted: " + nr.why + "\n"
+				confirmed = false
+				return
+			}
+			panic(x)
+		}
+	}()
+	tmp := tmpDir()
+	defer os.RemoveAll(tmp)
+	ms := &modelSession{query: buildQuery(r.ctx, r.idx, true, false), cache: map[string]string{}, dir: tmp}
+	enc := &Enc{c: r.ctx, l: e.lay}
+	pre := &materialiser{enc: enc, ms: ms, pkg: fn.Pkg.Pkg, objs: map[string]string{}}
+	var args []string
+	for _, p := range ri.Params {
+		args = append(args, pre.value(ri.Pre, p.T, p.L))
+	}
+	// expected post-state (only meaningful for ensures-style obligations)
+	post := &materialiser{enc: enc, ms: ms, pkg: fn.Pkg.Pkg, objs: map[string]string{}}
+	post.nvar = 1000
+	var checks []string
+	wantPanic := it.Class == "safe"
+	if !wantPanic {
+		sig := fn.Signature
+		for i, rv := range ri.Results {
+			exp := post.value(ri.Post, rv.T, rv.L)
+			_ = sig
+			checks = append(checks, fmt.Sprintf("{ exp := %s; if !reflect.DeepEqual(r%d, exp) { diverged(\"result %d\", r%d, exp) } }", exp, i, i, i))
+		}
+		for _, ro := range pre.roots {
+			exp := post.object(ri.Post, ro.t, ro.addr)
+			if _, isStruct := ro.t.Underlying().(*types.Struct); isStruct {
+				checks = append(checks, fmt.Sprintf("{ exp := &%s; if !reflect.DeepEqual(%s, exp) { diverged(\"post-state of %s\", *%s, *exp) } }", exp, ro.goVar, ro.goVar, ro.goVar))
+			} else {
+				checks = append(checks, fmt.Sprintf("{ exp := %s; if !reflect.DeepEqual(*%s, exp) { diverged(\"post-state of %s\", *%s, exp) } }", exp, ro.goVar, ro.goVar, ro.goVar))
+			}
+		}
+	}
+	// call expression
+	var call string
+	nres := fn.Signature.Results().Len()
+	var lhs []string
+	for i := 0; i < nres; i++ {
+		lhs = append(lhs, fmt.Sprintf("r%d", i))
+	}
+	if fn.Signature.Recv() != nil {
+		call = fmt.Sprintf("(%s).%s(%s)", args[0], fn.Name(), strings.Join(args[1:], ", "))
+	} else {
+		call = fmt.Sprintf("%s(%s)", fn.Name(), strings.Join(args, ", "))
+	}
+	var b strings.Builder
+	fmt.Fprintf(&b, "// Code generated by gvc: replay of the counterexample of obligation\n//   %s\n// on the real code.  Run with:\n//   cd %s && go test -overlay <ov.json> -vet=off -count=1 -timeout 60s -run TestZZVerifReplay ./%s\n", r.Name, repo, strings.TrimPrefix(fn.Pkg.Pkg.Path(), modPath+"/"))
+	fmt.Fprintf(&b, "package %s\n\nimport (\n\t\"fmt\"\n\t\"reflect\"\n\t\"testing\"\n)\n\nvar _ = reflect.DeepEqual\n\n", fn.Pkg.Pkg.Name())
+	b.WriteString("func TestZZVerifReplay(t *testing.T) {\n")
+	b.WriteString("\tok := true\n\tdiverged := func(what string, got, want any) { ok = false; fmt.Printf(\"REPLAY-DIVERGED %s: real code %+v, model %+v\\n\", what, got, want) }\n\t_ = diverged\n")
+	for _, s := range pre.stmts {
+		b.WriteString("\t" + s + "\n")
+	}
+	for i := 0; i < nres; i++ {
+		fmt.Fprintf(&b, "\tvar r%d %s\n", i, pre.typeStr(fn.Signature.Results().At(i).Type()))
+	}
+	b.WriteString("\tpanicked := func() (p any) {\n\t\tdefer func() { p = recover() }()\n\t\t")
+	if nres > 0 {
+		b.WriteString(strings.Join(lhs, ", ") + " = ")
+	}
+	b.WriteString(call + "\n\t\treturn nil\n\t}()\n")
+	for i := 0; i < nres; i++ {
+		fmt.Fprintf(&b, "\t_ = r%d\n", i)
+	}
+	if wantPanic {
+		b.WriteString("\tif panicked != nil {\n\t\tfmt.Printf(\"REPLAY-CONFIRMED: the real code panics: %v\\n\", panicked)\n\t\treturn\n\t}\n\tfmt.Println(\"REPLAY-DIVERGED: the real code does not panic on the model's input\")\n\tt.Fail()\n")
+	} else {
+		b.WriteString("\tif panicked != nil {\n\t\tfmt.Printf(\"REPLAY-DIVERGED: the real code panics: %v\\n\", panicked)\n\t\tt.Fail()\n\t\treturn\n\t}\n")
+		for _, s := range post.stmts {
+			b.WriteString("\t" + s + "\n")
+		}
+		for _, c := range checks {
+			b.WriteString("\t" + c + "\n")
+		}
+		b.WriteString("\tif ok {\n\t\tfmt.Println(\"REPLAY-CONFIRMED: the real code computes exactly the results and post-state of the solver's model, in which the obligation is false\")\n\t} else {\n\t\tt.Fail()\n\t}\n")
+	}
+	b.WriteString("}\n")
+	src = b.String()
+	// run it
+	pkgDir := filepath.Join(repo, strings.TrimPrefix(fn.Pkg.Pkg.Path(), modPath+"/"))
+	testFile := filepath.Join(tmp, "zz_verif_replay_test.go")
+	os.WriteFile(testFile, []byte(src), 0o644)
+	ov := map[string]any{"Replace": map[string]string{filepath.Join(pkgDir, "zz_verif_replay_test.go"): testFile}}
+	ovb, _ := json.Marshal(ov)
+	ovFile := filepath.Join(tmp, "ov.json")
+	os.WriteFile(ovFile, ovb, 0o644)
+	cmd := exec.Command("go", "test", "-overlay", ovFile, "-vet=off", "-count=1", "-v", "-timeout", "60s", "-run", "TestZZVerifReplay", "./"+strings.TrimPrefix(fn.Pkg.Pkg.Path(), modPath+"/"))
+	cmd.Dir = repo
+	cmd.Env = goEnv()
+	out, _ := cmd.CombinedOutput()
+	log += string(out)
+	confirmed = strings.Contains(string(out), "REPLAY-CONFIRMED")
+	return src, confirmed, log
+}
 
 // writeReplay writes the replay artefact for a failed obligation and
 // reports whether the counterexample was confirmed on the real code.
@@ -13,11 +543,73 @@ func writeReplay(e *Eng, dir string, r ObResult, repo string) (string, bool) {
 	var b strings.Builder
 	fmt.Fprintf(&b, "obligation: %s\nclass: %s\nat: %s\nclause: %s\nstatus: %s\n\n", r.Name, r.Class, r.Pos, r.Text, r.Status)
 	fmt.Fprintf(&b, "solver output:\n%s\n\n", r.Output)
+	confirmed := false
+	base := filepath.Join(dir, sanitize(r.Name))
 	if r.Status == "failed" && r.ctx != nil {
-		b.WriteString("counterexample (values of parameters, results and pre-state in the solver's model):\n")
+		b.WriteString("counterexample (values of parameters, results and watched terms in the solver's model):\n")
 		b.WriteString(explain(r.ctx, r.idx))
+		src, ok, log := replayObligation(e, r, repo)
+		confirmed = ok
+		if src != "" {
+			os.WriteFile(base+"_test.go.txt", []byte(src), 0o644)
+			fmt.Fprintf(&b, "\nreplay test: %s_test.go.txt\n", base)
+		}
+		fmt.Fprintf(&b, "\nreplay log:\n%s\n", log)
+		if ok {
+			b.WriteString("\nRESULT: counterexample confirmed on the real code\n")
+		} else {
+			b.WriteString("\nRESULT: no-failing-input-found (the model could not be replayed or the real code diverged from it)\n")
+		}
+	} else {
+		b.WriteString("the solver gave no model (unknown / timeout): no-failing-input-found\n")
 	}
-	path := filepath.Join(dir, sanitize(r.Name)+".txt")
+	path := base + ".txt"
 	os.WriteFile(path, []byte(b.String()), 0o644)
-	return path, false
+	return path, confirmed
+}
+
+var _ = sort.Strings
+
+func isSyncType(t types.Type) bool {
+	n, ok := t.(*types.Named)
+	return ok && n.Obj().Pkg() != nil && (n.Obj().Pkg().Path() == "sync" || n.Obj().Pkg().Path() == "sync/atomic")
+}
+
+// isZeroish reports whether a generated Go expression denotes a zero value
+// (every atom is 0, false, "" or nil).
+func isZeroish(e string) bool {
+	if strings.HasSuffix(e, "{}") && !strings.Contains(e, "(") {
+		return true
+	}
+	if e == "0" || e == "false" {
+		return true
+	}
+	if !strings.Contains(e, "(") {
+		return false
+	}
+	rest := e
+	for {
+		i := strings.Index(rest, "(")
+		if i < 0 {
+			return true
+		}
+		j := strings.Index(rest[i:], ")")
+		if j < 0 {
+			return false
+		}
+		atom := rest[i+1 : i+j]
+		if strings.Contains(atom, "(") {
+			// nested: type conversion like (*T)(nil)
+			rest = rest[i+1:]
+			continue
+		}
+		switch atom {
+		case "0", "false", "\"\"", "nil":
+		default:
+			if !strings.HasPrefix(atom, "*") && !strings.HasPrefix(atom, "[]") {
+				return false
+			}
+		}
+		rest = rest[i+j+1:]
+	}
 }
